@@ -23,6 +23,7 @@ type failStmt struct {
 	cause string
 	k     int // 1-based position of the invalid row (0: not row-related)
 	n     int
+	twin  bool // the invalid row prints like an earlier valid row of the statement
 }
 
 func longStr(r *core.Rand, n int) string {
@@ -158,6 +159,38 @@ func genFailing(r *core.Rand, h *gen.Hist, cause string) *failStmt {
 			row[ci] = wrongTypeVal(r, t.Cols[ci])
 			return row
 		})
+		if fs.k > 1 && fs.st != nil && r.Chance(1, 2) {
+			// the refused row is the "quoted twin" of an earlier, valid row:
+			// every value prints the same, one of them has another type
+			// (7 and '7', true and 'true'). Whatever an implementation
+			// remembers about rows it has already looked at must not be keyed
+			// by how they print
+			rows := fs.st.Rows
+			j := r.Intn(fs.k - 1)
+			twin := append([]proto.Val(nil), rows[j]...)
+			var cands []int
+			for ci := range twin {
+				if !twin[ci].IsNull() {
+					cands = append(cands, ci)
+				}
+			}
+			if len(cands) > 0 {
+				ci := cands[r.Intn(len(cands))]
+				switch v := twin[ci]; v.K {
+				case 'i':
+					twin[ci] = proto.Str(fmt.Sprint(v.I))
+				case 'b':
+					twin[ci] = proto.Str(fmt.Sprint(v.B))
+				case 's':
+					// the earlier row gets a string that reads like a number,
+					// the twin the number itself
+					rows[j][ci] = proto.Str("7")
+					twin[ci] = proto.Int(7)
+				}
+				rows[fs.k-1] = twin
+				fs.twin = true
+			}
+		}
 	case model.FailRange:
 		multi(func(row []proto.Val) []proto.Val {
 			ci := r.Intn(2) // k or g: INT
@@ -499,6 +532,9 @@ func runC14(c *core.Ctx, drv string, idx int) {
 		case "fail":
 			c.Count("failing_statements", 1)
 			c.Count("cause_"+x.fs.cause, 1)
+			if x.fs.twin {
+				c.Count("refused_row_prints_like_an_earlier_valid_row", 1)
+			}
 			if res.Err == "" {
 				c.Count("statement_did_not_fail", 1)
 				c.Inconclusive("not-refused", fmt.Sprintf("statement expected to fail (%s) succeeded — C08's business: %s", x.fs.cause, clip(model.RenderStmt(x.fs.st, model.Plain), 200)))
